@@ -224,25 +224,30 @@ func groupFirstCred(group string) (cred, bool) {
 }
 
 func runVhost(c *h.Case, s *vhostSpec) {
-	tag := tagFor(c, 0)
-	raw, lines := s.build(tag)
-	c.Ev("request", "raw", string(raw))
+	_, lines := s.build("")
 	urlHost := s.Form != "origin"
-	register(c, tag, lines, vhostKey(urlHost, false, lines), nil)
 	method := s.Method
 	if s.Form == "connect" {
 		method = "CONNECT"
 	}
 	e := env(s.T.Server)
-	resp := doRaw(fmt.Sprintf("127.0.0.1:%d", e.HTTPPort), raw, method, 20*time.Second)
-	c.Ev("response", "status", resp.Status, "header", resp.Header, "err", fmt.Sprint(resp.Err), "body", string(resp.Body))
-	run.Count("vhost_http_requests", 1)
+	var raw []byte
+	exchange := func(sub int) (rawResp, []string) {
+		tag := tagFor(c, sub)
+		raw, _ = s.build(tag)
+		c.Ev("request", "raw", string(raw))
+		register(c, tag, lines, vhostKey(urlHost, false, lines), nil)
+		resp := doRaw(fmt.Sprintf("127.0.0.1:%d", e.HTTPPort), raw, method, 20*time.Second)
+		c.Ev("response", "status", resp.Status, "header", resp.Header, "err", fmt.Sprint(resp.Err), "body", string(resp.Body))
+		run.Count("vhost_http_requests", 1)
+		return resp, judgeSeen(c, tag)
+	}
+	resp, ids := exchange(0)
 	if resp.Err == errTimeout {
 		run.Inconclusive("vhost http: no response within 20 s")
 	} else if resp.Err != nil {
 		run.Count("vhost_http_no_response", 1)
 	}
-	ids := judgeSeen(c, tag)
 	has := carries(lines, s.T.Focus)
 	if has {
 		run.Count("vhost_http_requests_with_exact_credentials", 1)
@@ -263,14 +268,24 @@ func runVhost(c *h.Case, s *vhostSpec) {
 	}
 	// positive control
 	if s.T.Control != "" && s.Form == "origin" && s.Version == "1.1" && s.HostStyle == "plain" && (s.Method == "GET" || s.Method == "POST") && canonicalAuth(lines, s.T.Focus) {
-		ok := resp.Err == nil && resp.Status == 200 && resp.Header.Get("X-Verif-Backend") == s.T.Control
-		seenCtl := false
-		for _, id := range ids {
-			if id == s.T.Control {
-				seenCtl = true
+		good := func() bool {
+			if resp.Err != nil || resp.Status != 200 || resp.Header.Get("X-Verif-Backend") != s.T.Control {
+				return false
 			}
+			for _, id := range ids {
+				if id == s.T.Control {
+					return true
+				}
+			}
+			return false
 		}
-		if !ok || !seenCtl {
+		// an authentication refusal is final; anything else (lost work connection on a loaded machine) is retried
+		for try := 1; try <= 2 && !good() && resp.Status != 401; try++ {
+			time.Sleep(time.Duration(try) * 500 * time.Millisecond)
+			run.Count("positive_control_retries", 1)
+			resp, ids = exchange(try)
+		}
+		if !good() {
 			c.Violation("vhost-http-exact-credentials-refused", "plain request with the exact credentials %v to %s%s: status %d, answered by %q, backends that saw it %v (want %s); err %v",
 				s.T.Focus, s.T.Host, s.T.Path, resp.Status, resp.Header.Get("X-Verif-Backend"), ids, s.T.Control, resp.Err)
 		}
@@ -301,11 +316,10 @@ func randKinds(rng *rand.Rand) []credKind {
 func genVhost(rng *rand.Rand) []spec {
 	var out []spec
 	kinds := coreKinds
-	versions := []string{"1.1"}
-	forms := []string{"origin", "absolute", "connect"}
+	versions := []string{"1.1", "1.0"}
+	forms := []string{"origin", "absolute", "connect", "absolute-decoy-host"}
 	if run.Thorough() {
 		kinds = allKinds()
-		forms = []string{"origin", "absolute", "connect", "absolute-decoy-host"}
 	}
 	// core: exhaustive product of credential variants per form and table
 	for _, t := range httpTargets {
@@ -321,7 +335,7 @@ func genVhost(rng *rand.Rand) []spec {
 		}
 	}
 	// sampled: the rest of the grammar
-	n := run.N(3000, 40000)
+	n := run.N(5000, 300000)
 	allForms := []string{"origin", "absolute", "absolute", "absolute-decoy-host", "absolute-url-open", "connect"}
 	for i := 0; i < n; i++ {
 		s := &vhostSpec{T: pick(rng, httpTargets), Form: pick(rng, allForms), Method: pick(rng, []string{"GET", "GET", "POST", "HEAD", "OPTIONS", "DELETE"}),
